@@ -509,6 +509,7 @@ pub fn worker_main(args: &Args, w: usize, n: usize) -> ! {
         let case_dir = scratch.path.join(format!("case-{ii}"));
         for i in lo..hi {
             let case = &cases[i as usize];
+            hooks.set_short_reads(if i % 2 == 1 { 300 } else { 0 }, i);
             let r = std::panic::catch_unwind(std::panic::AssertUnwindSafe(|| run_case(&case_dir, &img, case)));
             let (bad, panicked) = match r {
                 Ok(b) => (b, false),
